@@ -31,6 +31,25 @@ on clock threads.
   another played task, a task of another clock) is judged like any other and
   keyed '.../right-after-task-ending-with-<how>' (a stale logical time left
   behind by the failed wake-up shows as a wrong second / beat there).
+* tasks put on the clock AGAIN (round 8, vf/c12_moved.py; class: a task /
+  routine scheduled a second, third ... time on the same TempoClock while its
+  first wake-up is still pending, between wake-ups, from inside its own
+  wake-up or after it came to rest, and then going on by numeric deltas, with
+  tempo / etempo / beats / beats_per_bar changes before and after): Routines
+  and Function objects that wake 2-5 times are started by the root routine
+  through Routine.play(clock, quant), TempoClock.play(task, quant),
+  play_next_bar(task), sched_abs(beat, task) or sched(delta, task) and are
+  moved 0-3 times by any of these, by pause() ... resume(clock | None,
+  quant) or by the restart idioms reset(); play() and stop(); reset();
+  play(); the other ops of the step (map changes, queries) fall between the
+  calls.  Every wake-up must be at the beat of the LATEST scheduling (grid
+  oracle for the quantised calls with the meter reference of that call, the
+  given beat, current beat + delta, the next bar line), every later one at
+  previous beat + delta, and its (seconds, beats) reading must lie on the
+  reference map; play() on a playing routine and resume() on an unpaused one
+  must leave the pending wake-up alone; no wake-up may come for a task at
+  rest, none may be missing.  NRT and RT programs alike.  play_next_bar is
+  also one of the ways the one-shot children are played.
 * real-time 'rtm' shards (vf/c12_race.py): every change of a history stays
   continuous when a second party changes the same map concurrently: routines on
   the clock / on another TempoClock change tempo / beats / etempo during
@@ -58,7 +77,11 @@ RULE = ("seeded programs run by a routine on a real TempoClock: clock created "
         "has a map change followed by a query or wake-up and a grid query with "
         "a fractional quant, negative phase or after a meter change; distinct "
         "= hash of the program.  Played tasks end by return / generator end / "
-        "raise / StopStream / non-delta value.  rtm rounds: 2-3 clocks, each "
+        "raise / StopStream / non-delta value.  0-3 multi-wake tasks (Routine "
+        "/ Function object, 1-4 deltas) per program, each scheduled by one of "
+        "six entry points and put on the clock again 0-3 times (60 % in the "
+        "same step, i.e. before its first wake-up) with the step's other ops "
+        "in between.  rtm rounds: 2-3 clocks, each "
         "with 1-2 routines (own clock / another TempoClock) making 100-180 "
         "changes and a plain thread calling etempo / tempo / beats setters; "
         "non-trivial when a plain call took effect after a routine change "
@@ -77,6 +100,12 @@ ASSUMPTIONS = [
     "against the routines' changes only: continuity at SOME physical second "
     "of the call's duration, no order between the parties assumed; clocks are "
     "not stopped while calls are in flight",
+    "a clock holds one entry per task: scheduling a pending task again moves "
+    "it (real-time queue by construction; non-real-time scheduler since repo "
+    "fix 622fbde, 'moves it, as rt clocks do'); a delta handed back after the "
+    "task scheduled itself during the wake-up moves it once more; "
+    "Routine.play on a playing routine / resume on an unpaused one do nothing "
+    "(doc strings)",
     "a task that raises is logged by the clock and not rescheduled "
     "(documented 'always recover'); only the events after it are judged",
 ]
@@ -103,6 +132,23 @@ MIN_COUNTERS = {
               'rtc_wakeups_checked_right_after_raise': 50,
               'rtc_wakeups_checked_right_after_stopstream': 10,
               'rtc_wakeups_checked_right_after_value': 30,
+              'moved_task_wakeups': 3000,
+              'moved_task_moves_before_first_wake': 800,
+              'moved_task_delta_wakes_checked_after_move': 1200,
+              'moved_task_wakeups_after_map_change': 600,
+              'moved_task_first_wakes_checked_resume': 100,
+              'moved_task_first_wakes_checked_play': 80,
+              'moved_task_first_wakes_checked_clock.play': 250,
+              'moved_task_first_wakes_checked_next_bar': 150,
+              'moved_task_first_wakes_checked_sched_abs': 150,
+              'moved_task_first_wakes_checked_sched': 150,
+              'moved_task_self_moves': 250,
+              'moved_task_resets_while_pending': 40,
+              'moved_task_stops_while_pending': 40,
+              'moved_tasks_moved_and_continued_by_delta': 600,
+              'play_next_bar_first_wakes_checked': 400,
+              'rt_moved_task_wakeups': 50,
+              'rt_moved_task_moves_while_pending': 20,
               'rtm_routine_wakeups': 3000, 'rtm_plain_changes_checked': 1000,
               'rtm_plain_changes_applied_after_a_routine_change_etempo': 40,
               'rtm_plain_changes_applied_after_a_routine_change_tempo': 40,
@@ -117,6 +163,13 @@ MIN_COUNTERS = {
                  'wakes_checked_right_after_raise': 50000,
                  'rt_wakes_checked_right_after_raise': 100,
                  'rtc_wakeups_checked_right_after_raise': 2000,
+                 'moved_task_wakeups': 150000,
+                 'moved_task_moves_before_first_wake': 40000,
+                 'moved_task_delta_wakes_checked_after_move': 60000,
+                 'moved_task_wakeups_after_map_change': 30000,
+                 'play_next_bar_first_wakes_checked': 20000,
+                 'rt_moved_task_wakeups': 5000,
+                 'rt_moved_task_moves_while_pending': 2000,
                  'rtm_plain_changes_checked': 20000,
                  'rtm_plain_changes_applied_after_a_routine_change_etempo': 800,
                  'rtm_plain_changes_applied_after_a_routine_change_tempo': 800,
@@ -162,8 +215,9 @@ def _sc():
     from sc3.base.main import main
     from sc3.base.clock import TempoClock, Quant, SystemClock
     from sc3.base.stream import Routine, StopStream
+    from sc3.base.functions import Function
     return types.SimpleNamespace(main=main, TempoClock=TempoClock, Quant=Quant,
-                                 SystemClock=SystemClock,
+                                 SystemClock=SystemClock, Function=Function,
                                  Routine=Routine, StopStream=StopStream)
 
 
@@ -295,7 +349,8 @@ def run_rt(spec, acc, sc, K):
         def pending(r):
             if r.stop or r.internal or r.clk is None:
                 return False
-            return not r.finished or any(c['wake'] is None for c in r.children)
+            return not r.finished or r.mt_pending() or any(
+                c['wake'] is None for c in r.children)
         while time.time() < t_end and any(pending(r) for r in runs):
             time.sleep(0.01)
         with sc.main._main_lock:
